@@ -209,9 +209,20 @@ func (node *harness) NextAction(ctx context.Context, flow Flow) chan IAction {
 		}
 	})
 
+	// The run loop stops answering once the context is done: do not wait for it then
+	// (a nil channel is never ready, the flow's own select sees the cancellation).
 	response := make(chan chan IAction, 1)
-	node.mch <- nextHarnessActionMessage{flow: flow, response: response}
-	return <-response
+	select {
+	case node.mch <- nextHarnessActionMessage{flow: flow, response: response}:
+	case <-ctx.Done():
+		return nil
+	}
+	select {
+	case out := <-response:
+		return out
+	case <-ctx.Done():
+		return nil
+	}
 }
 
 func (node *harness) Element() schema.FlowNodeInterface { return node.activity.Element() }
